@@ -1146,6 +1146,55 @@ Example guarded_nonvacuous :
   wf s_wit = true /\ fresh 7 s_wit = true /\ benign_guarded true s_wit "v1" F = true /\
   load_git true true true F 7 "v1" tree_wit [EvWrite] s_wit = (s_wit, Raised "OSError").
 Proof. repeat split; reflexivity. Qed.
+(* ------------------------------------------------------------------ `worktree remove` by name *)
+
+(* a unique match that is not the main worktree: the named removal IS the removal of that worktree by its path *)
+Theorem remove_named_unique : forall force nm name s r,
+  filter (reg_named nm name) (regs s) = [r] -> String.eqb (fst nm) name = false ->
+  wt_remove_named force nm name s = wt_remove force (rpath r) s.
+Proof. intros force nm name s r H M. unfold wt_remove_named. rewrite H, M. reflexivity. Qed.
+
+(* several worktrees whose directory has that name (the user's own `../worktrees/hotfix` next to Griffe's
+   `<tmp>/hotfix`), or the main worktree's directory has it: refused, nothing changes *)
+Theorem remove_named_ambiguous : forall force nm name s,
+  (String.eqb (fst nm) name = true \/ List.length (filter (reg_named nm name) (regs s)) <> 1) ->
+  wt_remove_named force nm name s = None.
+Proof.
+  intros force nm name s [M|L]; unfold wt_remove_named.
+  - destruct (filter (reg_named nm name) (regs s)) as [|r [|r' l]]; try reflexivity. rewrite M. reflexivity.
+  - destruct (filter (reg_named nm name) (regs s)) as [|r [|r' l]]; try reflexivity. exfalso. apply L. reflexivity.
+Qed.
+
+(* in the state the finally block starts from, the removal by PATH works for every naming, whereas the removal by the
+   NAME of the checkout directory is refused as soon as one more worktree -- or the repository directory -- has that name *)
+Theorem remove_by_name_refused_where_path_works :
+  forall s p b c d nm name q,
+  fresh p s = true -> has_branch b s = false ->
+  nlookup p (snd nm) = Some name ->
+  (String.eqb (fst nm) name = true \/ (registered q s = true /\ Nat.eqb q p = false /\ nlookup q (snd nm) = Some name)) ->
+  wt_remove_named true nm name (conc s p b c (AFull d)) = None /\
+  wt_remove true p (conc s p b c (AFull d)) = Some (conc s p b c ANoWt).
+Proof.
+  intros s p b c d nm name q Hfr Hnob Hp Hq. split.
+  - apply remove_named_ambiguous. destruct Hq as [M|[Hreg [Hne Hn]]]; [left; exact M|right].
+    assert (E : reg_named nm name (mkReg p (Some b) false) = true) by (unfold reg_named, naming, path in *; cbn [rpath]; rewrite Hp; apply String.eqb_refl).
+    cbn [conc regs filter]. rewrite E. cbn [List.length].
+    unfold registered in Hreg. apply existsb_exists in Hreg. destruct Hreg as [r [Hin Hr]]. apply Nat.eqb_eq in Hr.
+    assert (In r (filter (reg_named nm name) (regs s))).
+    { apply filter_In. split; [exact Hin|]. unfold reg_named, naming, path in *. rewrite Hr, Hn. apply String.eqb_refl. }
+    destruct (filter (reg_named nm name) (regs s)); [contradiction|]. simpl. discriminate.
+  - rewrite (remove_opt s p b c Hfr). reflexivity.
+Qed.
+
+Example remove_by_name_witness :
+  let s := mkRepo (Some "main") 1 0 [("main", 1); ("hotfix", 0)] [] [mkReg 3 (Some "hotfix") false] [(3, false)] [] in
+  let nm : naming := ("project", [(3, "hotfix"); (7, "hotfix")]) in
+  wf s = true /\ fresh 7 s = true /\
+  wt_remove_named true nm "hotfix" (conc s 7 "griffe-hotfix" 0 (AFull false)) = None /\
+  wt_remove_named true ("project", [(3, "other"); (7, "hotfix")]) "hotfix" (conc s 7 "griffe-hotfix" 0 (AFull false))
+  = Some (conc s 7 "griffe-hotfix" 0 ANoWt).
+Proof. repeat split; reflexivity. Qed.
+
 (* ------------------------------------------------------------------ _normalize *)
 
 Fixpoint all_chars (P : ascii -> Prop) (s : string) : Prop :=
